@@ -49,6 +49,7 @@ class Device:
         self.clock_calls = 0
         self.given = bytearray()        # bytes handed to the transport during the current op
         self.dropped = bytearray()      # bytes the OS threw away during the current op (oversize datagram, flush)
+        self.lost_dgrams: list = []     # (datagram length, receive size asked for) of datagrams lost during the current op
         self.objects = 0                # sockets / serial ports created
 
     # virtual time ---------------------------------------------------------
@@ -86,6 +87,7 @@ class Device:
         if datagram:
             self.script.pop(0)
             self.dropped += bs
+            self.lost_dgrams.append((len(bs), size))
             return ("oserr",)
         self.script[0] = [0, "d", bs[size:]]
         self.given += bs[:size]
@@ -284,6 +286,7 @@ def _run_impl(P: _Patched, sc: dict):
         dev.io = []
         dev.given = bytearray()
         dev.dropped = bytearray()
+        dev.lost_dgrams = []
         calls0, objs0 = dev.calls, dev.objects
         ret, exc = None, None
         try:
@@ -323,7 +326,8 @@ def _run_impl(P: _Patched, sc: dict):
         outs.append(f"{o} io={','.join(dev.io) or '-'} clk={dev.ticks} left={len(dev.script)} buf={_hx(buf)}")
         trace.append({"op": op, "args": st[1:], "ret": None if ret is None else bytes(ret), "exc": exc,
                       "touched": dev.calls - calls0, "made": dev.objects - objs0,
-                      "given": bytes(dev.given), "dropped": bytes(dev.dropped), "buf": buf})
+                      "given": bytes(dev.given), "dropped": bytes(dev.dropped), "buf": buf,
+                      "lost_dgrams": list(dev.lost_dgrams), "fit_limit": min(mn, mx)})
         if exc == "Budget":
             break
     return lines, outs, trace
@@ -382,8 +386,17 @@ def _oracle(kind: str, trace) -> Optional[tuple]:
             elif exc == "QMI_InvalidOperationException":
                 return ("open-transport-refused", i, op)
             pending += ev["given"]
+            # A datagram that fits the transport's packet size must never be lost or cut, whatever is already
+            # buffered: the receive size asked of the OS may not drop below the packet size.
+            if kind == "udp":
+                for (dlen, asked) in ev.get("lost_dgrams", ()):
+                    if dlen <= ev.get("fit_limit", 0):
+                        return ("datagram-that-fits-packet-size-lost-or-truncated", i,
+                                f"{op}: a {dlen}-byte datagram (packet size {ev['fit_limit']}) was received with size {asked} "
+                                f"while {len(pending)} bytes were buffered: the OS drops it or cuts it to {asked} bytes")
             if exc is not None:
-                ok = exc in _ALLOWED_EXC or (exc == "QMI_RuntimeException" and kind == "udp" and ev["dropped"]) \
+                ok = exc in _ALLOWED_EXC or (exc == "QMI_RuntimeException" and kind == "udp" and ev["dropped"]
+                                             and all(d > ev.get("fit_limit", 0) for d, _ in ev.get("lost_dgrams", ()))) \
                     or (exc == "ValueError" and ev["args"] and ev["args"][-1] is not None and ev["args"][-1] < 0)
                 if not ok:
                     return ("unexpected-exception", i, f"{op}: {exc}")
@@ -413,6 +426,19 @@ def _oracle(kind: str, trace) -> Optional[tuple]:
             return (f"buffer-differs-from-undelivered-{how}", i,
                     f"{op}: buffer {_hx(ev['buf'])} undelivered {_hx(pending)}")
     return soft
+
+
+def _short(steps) -> str:
+    """steps for a one-line summary: long hex strings abbreviated (the replay file keeps them in full)"""
+    def h(x):
+        return x if not isinstance(x, str) or len(x) <= 48 else f"{x[:24]}…({len(x) // 2} bytes)"
+    out = []
+    for st in steps:
+        if st[0] == "feed":
+            out.append(["feed", [[e, k, h(d)] for e, k, d in st[1]]])
+        else:
+            out.append([h(a) for a in st])
+    return repr(out)
 
 
 def _signature(kind: str, trace, clause) -> str:
@@ -583,6 +609,48 @@ def _gen_scenario(rng, kind: str, max_ops: int) -> dict:
     return {"kind": kind, "steps": steps}
 
 
+def _gen_udp_boundary(rng) -> dict:
+    """UDP at the packet-size boundary: a non-empty buffer followed by datagrams of 4096-nbuf … 4096 bytes, and
+    reads of 4000+ bytes over mid-size (≈1400-byte) datagrams.  Every datagram fits the packet size, so nothing
+    may be lost."""
+    P = 4096
+    steps = []
+    evs = []
+    if rng.random() < 0.5:
+        # A: a few bytes stay buffered, then a datagram close to the packet size
+        k = rng.choice([1, 2, 4, 10, 10, 33, 100])
+        first = _gen_stream(rng, k + rng.choice([0, 0, 3]))
+        big_len = P - rng.choice([0, 0, 1, k - 1, k, k + 1, 2 * k, rng.randint(0, k)])
+        big = _gen_stream(rng, max(1, big_len))
+        evs = [[rng.choice([0, 1]), "d", first.hex()], [rng.choice([0, 1, 3]), "d", big.hex()]]
+        for _ in range(rng.randint(1, 4)):
+            evs.append([rng.choice([0, 2, 8]), "t", ""])
+        steps = [["feed", evs], ["open"]]
+        if len(first) > k:
+            steps.append(["read", len(first) - k, rng.choice([None, 5])])      # leaves k bytes in the buffer
+        n = rng.choice([k + 1, k + 10, 100, 1000, P - 1, P, P + k, P + 1000])
+        steps.append([rng.choice(["read", "read", "rut"]), n, rng.choice([None, 5, 20])])
+        steps.append(["rut", rng.choice([P, 2 * P]), rng.choice([0, 3])])
+        steps.append(["rut", 2 * P, 1])
+    else:
+        # B: a long read assembled from mid-size datagrams
+        size = rng.choice([1400, 1400, 1000, 1472, 2048, 3000, rng.randint(500, 4096)])
+        count = rng.randint(2, 6)
+        for _ in range(count):
+            evs.append([rng.choice([0, 0, 1, 2]), "d", _gen_stream(rng, size if rng.random() < 0.7 else rng.randint(1, size)).hex()])
+            if rng.random() < 0.15:
+                evs.append([rng.choice([1, 4]), "t", ""])
+        for _ in range(rng.randint(1, 4)):
+            evs.append([rng.choice([0, 2, 8]), "t", ""])
+        steps = [["feed", evs], ["open"]]
+        for _ in range(rng.randint(1, 3)):
+            n = rng.choice([4000, 4000, 4096, 4097, 5000, 2 * size + 1, 3 * size, size + 1])
+            steps.append([rng.choice(["read", "read", "rut"]), n, rng.choice([None, 10, 40])])
+        steps.append(["rut", 3 * P, rng.choice([0, 2])])
+        steps.append(["rut", 3 * P, 1])
+    return {"kind": "udp", "steps": steps}
+
+
 def _sweep_scenarios(kinds=KINDS):
     """Systematic: one stream, every single cut point, with and without a time-out between the two halves,
     every terminator of a small set, a few op templates."""
@@ -670,7 +738,7 @@ class C13(Prop):
                     if not any(f.signature == sig2 for f in res.failures):
                         res.failures.append(Failure(
                             signature=sig2,
-                            summary=f"{kind} {small['steps']}: {c2[0]} at step {c2[1]}: {c2[2]}",
+                            summary=f"{kind} {_short(small['steps'])}: {c2[0]} at step {c2[1]}: {c2[2]}",
                             replay={"kind": "scenario", "scenario": small, "clause": c2[0]}))
         model = drv.run(all_lines)
         res.traces_validated += len(spans)
@@ -689,6 +757,8 @@ class C13(Prop):
                           "(single bytes / whole / random cuts), with delays, time-out results, empty reads, EOF and (UDP) "
                           "oversize datagrams sprinkled in, fed up-front or in instalments between ops; ops = random "
                           "read/read_until/read_until_timeout/discard_read/open/close with time-outs None/0/positive/negative; "
+                          "plus UDP packet-size boundary scenarios (non-empty buffer + datagram of 4096-nbuf..4096 bytes; reads of 4000+ bytes "
+                          "over ~1400-byte datagrams; every datagram fits, so none may be lost); "
                           "plus a systematic sweep (every cut point x gap kind x terminator x 6 op templates x 3 kinds). "
                           "non-trivial = at least 3 ops and at least one call returned data; distinct by (kind, steps)")
         with _Patched() as P:
@@ -700,6 +770,7 @@ class C13(Prop):
             n = ctx.scale(45000, 600000)
             scen = [_gen_scenario(ctx.rng, KINDS[i % 3], ctx.scale(10, 16)) for i in range(n)]
             self._differential(ctx, P, scen, res, "random")
+            self._differential(ctx, P, [_gen_udp_boundary(ctx.rng) for _ in range(ctx.scale(400, 6000))], res, "udp_boundary")
             sweep = list(_sweep_scenarios())
             if ctx.quick:
                 sweep = ctx.rng.sample(sweep, 2500)
@@ -714,7 +785,7 @@ class C13(Prop):
         res = Result()
         with _Patched() as P:
             cands = [b.case["scenario"] for b in broken if b.case and "scenario" in b.case]
-            for sc in itertools.chain(cands, _sweep_scenarios(),
+            for sc in itertools.chain(cands, (_gen_udp_boundary(ctx.rng) for _ in range(300)), _sweep_scenarios(),
                                       (_gen_scenario(ctx.rng, KINDS[i % 3], 12) for i in range(ctx.scale(6000, 60000)))):
                 clause, trace = _check(P, sc)
                 res.note_case((sc["kind"], repr(sc["steps"])))
@@ -726,7 +797,7 @@ class C13(Prop):
                     c2, t2 = _check(P, small)
                     c2 = c2 or clause
                     res.failures.append(Failure(_signature(sc["kind"], t2, c2) if t2 else sig,
-                                                f"{sc['kind']} {small['steps']}: {c2[0]} at step {c2[1]}: {c2[2]}",
+                                                f"{sc['kind']} {_short(small['steps'])}: {c2[0]} at step {c2[1]}: {c2[2]}",
                                                 {"kind": "scenario", "scenario": small, "clause": c2[0]}))
                     if len(res.failures) >= 3:
                         break
@@ -738,8 +809,10 @@ class C13(Prop):
             clause, trace = _check(P, sc)
             if clause is None:
                 return None
+            if core.known_match(self.id, _signature(sc["kind"], trace, clause)):
+                return None          # only a listed known finding is left on this input
             return Failure(_signature(sc["kind"], trace, clause),
-                           f"{sc['kind']} {sc['steps']}: {clause[0]} at step {clause[1]}: {clause[2]}", rp)
+                           f"{sc['kind']} {_short(sc['steps'])}: {clause[0]} at step {clause[1]}: {clause[2]}", rp)
 
 
 PROP = C13()
